@@ -359,7 +359,6 @@ func findDone(w *world.World, id string) *world.App {
 	return nil
 }
 
-func (e *Engine) checkC07(st *Step) {}
 
 // ---------------------------------------------------------------------------------------------------------
 // C09: reservations
